@@ -3,5 +3,5 @@
 D=$1
 git -C /repo worktree add --detach -q "$D" HEAD || exit 2
 cd "$D" || exit 2
-for f in $(git ls-files | grep zz_contracts_verif.go); do git update-index --assume-unchanged "$f"; rm -f "$f"; done
+for f in $(git ls-files | grep -E "zz_contracts.*_verif.go"); do git update-index --assume-unchanged "$f"; rm -f "$f"; done
 echo "worktree $D ready"
